@@ -42,6 +42,10 @@ pub struct OverLong {
     /// literals of the block that no sequence consumes (appended after the last match)
     #[serde(default)]
     pub trailing: u32,
+    /// 0: the block is a Compressed block (fields above); 1: an RLE block and 2: a Raw block whose
+    /// Block_Size field says `target` (up to the field's 2^21 - 1)
+    #[serde(default)]
+    pub plain: u8,
 }
 
 #[derive(Clone, Debug, Serialize, Deserialize)]
@@ -69,6 +73,14 @@ pub fn overlong_spec(o: &OverLong) -> FrameSpec {
         _ => {}
     }
     let target = o.target as usize;
+    if o.plain % 3 != 0 {
+        let n = target.min((1 << 21) - 1);
+        blocks.push(if o.plain % 3 == 1 { BlockSpec::Rle { byte: o.lit_mode, len: n as u32 } } else { BlockSpec::Raw { data: vec![0x63; n] } });
+        if o.suffix {
+            blocks.push(BlockSpec::Raw { data: vec![1, 2, 3] });
+        }
+        return FrameSpec { single_segment: false, window_desc: o.window_desc, fcs_bytes: 0, checksum: false, dict_id_bytes: 0, zero_dict_id: false, blocks };
+    }
     let comp = if o.via_literals {
         CompSpec {
             literals: vec![0x61; target.min((1 << 20) - 1)],
@@ -140,9 +152,10 @@ pub fn overlong_strategy() -> impl Strategy<Value = OverLong> {
     (
         (target, 1u16..=40, prop::bool::weighted(0.2), any::<u8>(), 1u8..=8),
         ([0u8..=2, 0u8..=2, 0u8..=2], (0u8..=13, 0u8..=7), 0u8..=2, any::<bool>(), prop_oneof![Just(131_074u32), Just(65_539u32), 3u32..=131_074],
-            prop_oneof![3 => Just(0u32), 2 => 1u32..=131_072, 1 => Just(131_072u32), 1 => 60_000u32..=131_072]),
+            prop_oneof![3 => Just(0u32), 2 => 1u32..=131_072, 1 => Just(131_072u32), 1 => 60_000u32..=131_072],
+            prop_oneof![6 => Just(0u8), 2 => Just(1u8), 1 => Just(2u8)]),
     )
-        .prop_map(|((target, lit_len, via_literals, lit_mode, offset), (modes, (e, m), prefix, suffix, max_ml, trailing))| OverLong {
+        .prop_map(|((target, lit_len, via_literals, lit_mode, offset), (modes, (e, m), prefix, suffix, max_ml, trailing, plain))| OverLong {
             target,
             lit_len,
             via_literals,
@@ -154,6 +167,7 @@ pub fn overlong_strategy() -> impl Strategy<Value = OverLong> {
             suffix,
             max_ml,
             trailing,
+            plain,
         })
 }
 
@@ -395,6 +409,8 @@ pub fn check(case: &Case, ctx: &mut CaseCtx) -> CaseResult {
     ctx.feat_if(warm > 0, "decoder:warm_(frame_with_a_larger_window_decoded_before)");
     if over {
         ctx.feat("overlong:must_reject");
+        ctx.feat_if(matches!(&case.src, Src::OverLong(o) if o.plain % 3 == 1), "overlong:rle_block_above_128K");
+        ctx.feat_if(matches!(&case.src, Src::OverLong(o) if o.plain % 3 == 2), "overlong:raw_block_above_128K");
         ensure!(obs.result.is_err(), "overlong_block_accepted",
             "a block regenerating {max_regen} bytes (> 128 KiB) was expanded instead of rejected; {} bytes delivered; frame {} ({} bytes), drive {:?}", obs.delivered, hexhead(&frame), frame.len(), case.drive);
     } else if let Drive::DecodeAllUndersized { keep } = &case.drive {
